@@ -36,7 +36,7 @@ def run(model, res, tier):
     res.rule('R7', 'cell tokens cover the label language')
     res.rule('R8', 'callbacks keep no shared state')
     res.rule('R11', 'events reach exactly the subscribed listeners: the emitter contract (subscription, once, unsubscription by equality, snapshot delivery; shared with C20.R1-R5)')
-    res.rule('R10', 'labels recomposed for range corners agree with the coordinates: column/row converters are exact bijective base-26 / index+1 maps (shared with C19.R3, C19.R4)')
+    res.rule('R10', 'labels recomposed for range corners agree with the coordinates: column/row converters are exact bijective base-26 / index+1 maps and the recomposed label puts each $ in front of its own part (shared with C19.R3, C19.R4, C19.R5)')
     res.rule('R9', 'a listener that evaluates another formula cannot make the outer formula lose its remaining references: private token stream per parse (shared with C03.R1)')
     res.trusted += ['hxsa abstract interpreter and builtin models', 'CPython ast', 're._parser']
     cbs = callbacks(c)
@@ -60,11 +60,22 @@ def run(model, res, tier):
     cm = c19.cell_module(model)
     H.borrow(res, 'R10', 'column converters', lambda tmp: c19._r3(model, tmp, cm))
     H.borrow(res, 'R10', 'row converters', lambda tmp: c19._r4(model, tmp, cm))
+    H.borrow(res, 'R10', 'recomposition', lambda tmp: c19._r5(model, tmp, cm))
     from . import c20
     H.borrow(res, 'R11', 'event emitter', lambda tmp: c20.emitter_rules(model, tmp))
 
 
 # ---------------------------------------------------------------------------------------------------
+
+def supplied_values_rules(model, tmp, c):
+    """R1/R5/R6 as a unit for the properties about values (borrowed): what a listener hands to the setter - 0, FALSE and empty text
+    included - is the value of the reference, a blank only when nothing was supplied."""
+    cbs = callbacks(c)
+    for need in EVENTS:
+        if need not in cbs:
+            raise AnalysisError('callback %s not bound into the grammar parser (anchor vanished)' % need)
+    _r1_r5({'model': model, 'c': c, 'res': tmp, 'cbs': cbs})
+
 
 def run_callback(ctx, cb, make_args, listener_script=None, subscribe=True, opaque=None):
     """Outcomes of invoking callback ``cb`` (a key of EVENTS).  The abstract listener is subscribed to all four event
